@@ -16,8 +16,16 @@
    sizes and OTLP batch count.  Panics of the real code are the harness's monitors. *)
 From Coq Require Import String.
 From Coq Require Export List ZArith.
-From GS Require Export Base.Bytes Base.CorrLib Model.GoPartial Model.Histogram Model.Stats Model.Series
-  Model.Rank Model.FlushPartial Model.PayloadPartial.
+From GS Require Export Base.Bytes.
+From GS Require Export Base.CorrLib.
+From GS Require Export Base.GoFloat.
+From GS Require Export Model.GoPartial.
+From GS Require Export Model.Histogram.
+From GS Require Export Model.Stats.
+From GS Require Export Model.Series.
+From GS Require Export Model.Rank.
+From GS Require Export Model.FlushPartial.
+From GS Require Export Model.PayloadPartial.
 Import ListNotations.
 Local Open Scope Z_scope.
 
@@ -39,6 +47,7 @@ Record hcfg := HC {
 
 Inductive c04case :=
 | CRank (p n : Z) (obs : option Z)
+| CRankF (pbits n : Z) (obs : option Z)           (* a non-integer threshold, as its float64 bit pattern *)
 | CHist (cfg : hcfg) (series : list sdef) (table : list (str * option bound)) (ops : list cop).
 
 Definition oracle (t : list (str * option bound)) (s : str) : option bound :=
@@ -146,6 +155,12 @@ Definition check_case (k : c04case) : bool :=
       | Some v => (rank p n =? v) && negb (v =? 0)
       | None => rank p n =? 0
       end
+  | CRankF pb n obs =>
+      let k := rank_float (float_of_bits pb) n in
+      match obs with
+      | Some v => (k =? v) && negb (v =? 0)
+      | None => k =? 0
+      end
   | CHist c ss t ops => oracle_complete ss t && run_ops c (oracle t) ss agg_empty ops
   end.
 
@@ -175,5 +190,6 @@ Fixpoint shapes (c : hcfg) (pf : str -> option bound) (ss : list sdef) (a : agg 
 Definition explain_case (k : c04case) :=
   match k with
   | CRank p n _ => (rank p n, [])
+  | CRankF pb n _ => (rank_float (float_of_bits pb) n, [])
   | CHist c ss t ops => (0, shapes c (oracle t) ss agg_empty ops)
   end.
